@@ -93,3 +93,141 @@ package core
 //@ ensures result ==> duty.Slot / slotsPerEpoch <= uint64(o.nowFunc().Sub(genesisTime) / slotDuration) / slotsPerEpoch + uint64(o.allowedFutureEpochs)
 //@ ensures duty.Type > 0 && duty.Type < 14 && duty.Slot / slotsPerEpoch <= uint64(o.nowFunc().Sub(genesisTime) / slotDuration) / slotsPerEpoch ==> result
 //@ canary !result
+
+// ---- C10: partial signed data constructors carry the node's share index ------------------------
+//@ pure Eth2SignedData.Epoch Eth2SignedData.DomainName Signature.ToETH2 signing.Verify eth2util.EpochFromSlot
+
+//@ func NewPartialSignature
+//@ props C10
+//@ pure
+//@ ensures result.ShareIdx == shareIdx
+
+//@ func NewPartialVersionedSignedProposal
+//@ props C10
+//@ pure
+//@ ensures r1 == nil ==> r0.ShareIdx == shareIdx
+
+//@ func NewPartialVersionedSignedBlindedProposal
+//@ props C10
+//@ pure
+//@ ensures r1 == nil ==> r0.ShareIdx == shareIdx
+
+//@ func NewPartialVersionedAttestation
+//@ props C10
+//@ pure
+//@ ensures r1 == nil ==> r0.ShareIdx == shareIdx
+
+//@ func NewPartialSignedVoluntaryExit
+//@ props C10
+//@ pure
+//@ ensures result.ShareIdx == shareIdx
+
+//@ func NewPartialVersionedSignedValidatorRegistration
+//@ props C10
+//@ pure
+//@ ensures r1 == nil ==> r0.ShareIdx == shareIdx
+
+//@ func NewPartialSignedRandao
+//@ props C10
+//@ pure
+//@ ensures result.ShareIdx == shareIdx
+
+//@ func NewPartialSignedBeaconCommitteeSelection
+//@ props C10
+//@ pure
+//@ ensures result.ShareIdx == shareIdx
+
+//@ func NewPartialSignedSyncCommitteeSelection
+//@ props C10
+//@ pure
+//@ ensures result.ShareIdx == shareIdx
+
+//@ func NewPartialSignedAggregateAndProof
+//@ props C10
+//@ pure
+//@ ensures result.ShareIdx == shareIdx
+
+//@ func NewPartialVersionedSignedAggregateAndProof
+//@ props C10
+//@ pure
+//@ ensures result.ShareIdx == shareIdx
+
+//@ func NewPartialSignedSyncMessage
+//@ props C10
+//@ pure
+//@ ensures result.ShareIdx == shareIdx
+
+//@ func NewPartialSyncContributionAndProof
+//@ props C10
+//@ pure
+//@ ensures result.ShareIdx == shareIdx
+
+//@ func NewPartialSignedSyncContributionAndProof
+//@ props C10
+//@ pure
+//@ ensures result.ShareIdx == shareIdx
+
+// ---- C09 / C10: signing domain per signed-data type (table transcribed from the consensus spec) ----
+
+//@ func (VersionedSignedProposal) DomainName
+//@ props C09 C10
+//@ pure
+//@ ensures result == signing.DomainBeaconProposer
+
+//@ func (VersionedAttestation) DomainName
+//@ props C09 C10
+//@ pure
+//@ ensures result == signing.DomainBeaconAttester
+
+//@ func (SignedVoluntaryExit) DomainName
+//@ props C09 C10
+//@ pure
+//@ ensures result == signing.DomainExit
+
+//@ func (VersionedSignedValidatorRegistration) DomainName
+//@ props C09 C10
+//@ pure
+//@ ensures result == signing.DomainApplicationBuilder
+
+//@ func (SignedRandao) DomainName
+//@ props C09 C10
+//@ pure
+//@ ensures result == signing.DomainRandao
+
+//@ func (BeaconCommitteeSelection) DomainName
+//@ props C09 C10
+//@ pure
+//@ ensures result == signing.DomainSelectionProof
+
+//@ func (SignedAggregateAndProof) DomainName
+//@ props C09 C10
+//@ pure
+//@ ensures result == signing.DomainAggregateAndProof
+
+//@ func (VersionedSignedAggregateAndProof) DomainName
+//@ props C09 C10
+//@ pure
+//@ ensures result == signing.DomainAggregateAndProof
+
+//@ func (SignedSyncMessage) DomainName
+//@ props C09 C10
+//@ pure
+//@ ensures result == signing.DomainSyncCommittee
+
+//@ func (SignedSyncContributionAndProof) DomainName
+//@ props C09 C10
+//@ pure
+//@ ensures result == signing.DomainContributionAndProof
+
+//@ func (SyncCommitteeSelection) DomainName
+//@ props C09 C10
+//@ pure
+//@ ensures result == signing.DomainSyncCommitteeSelectionProof
+
+//@ func VerifyEth2SignedData
+//@ props C09 C10 C01
+//@ pure
+//@ ensures result == nil ==> res(1, data.Epoch(ctx, eth2Cl)) == nil && res(1, data.MessageRoot()) == nil
+//@ ensures result == nil ==> signing.Verify(ctx, eth2Cl, data.DomainName(), res(0, data.Epoch(ctx, eth2Cl)), res(0, data.MessageRoot()), data.Signature().ToETH2(), pubkey) == nil
+//@ canary result != nil
+
